@@ -72,7 +72,7 @@ zix_sem_timed_wait(ZixSem*        sem,
   if (!(r = clock_gettime(CLOCK_REALTIME, &ts))) {
     ts.tv_sec += (time_t)seconds;
     ts.tv_nsec += (long)nanoseconds;
-    if (ts.tv_nsec >= NS_PER_SECOND) {
+    while (ts.tv_nsec >= NS_PER_SECOND) {
       ts.tv_nsec -= NS_PER_SECOND;
       ts.tv_sec++;
     }
